@@ -2071,6 +2071,17 @@ func (a *Agent) handleStreamOpenAck(peerID identity.AgentID, frame *protocol.Fra
 		boundIP = net.IP(ack.BoundAddr)
 	}
 
+	// The acknowledgement must arrive where the open was sent: a frame of
+	// another tunnel (its relay entry here is gone, so it was not forwarded)
+	// can carry the same request ID as one of our own pending opens.
+	if !a.streamMgr.PendingOpenMatches(ack.RequestID, frame.StreamID, peerID) {
+		a.logger.Debug("ignoring stream open ack that matches no pending open on this connection",
+			logging.KeyPeerID, peerID.ShortString(),
+			logging.KeyStreamID, frame.StreamID,
+			logging.KeyRequestID, ack.RequestID)
+		return
+	}
+
 	a.streamMgr.HandleStreamOpenAck(ack.RequestID, boundIP, ack.BoundPort, ack.EphemeralPubKey)
 }
 
@@ -2101,6 +2112,10 @@ func (a *Agent) handleStreamOpenErr(peerID identity.AgentID, frame *protocol.Fra
 		logging.KeyRequestID, errPayload.RequestID,
 		"error_code", errPayload.ErrorCode,
 		"message", errPayload.Message)
+
+	if !a.streamMgr.PendingOpenMatches(errPayload.RequestID, frame.StreamID, peerID) {
+		return
+	}
 
 	a.streamMgr.HandleStreamOpenErr(errPayload.RequestID, errPayload.ErrorCode, errPayload.Message)
 }
